@@ -31,7 +31,7 @@ REAL = ["bec2format.bf3file (parse_bf2_file, bf2_import, exec_bf2instrs, bf2_unp
         "annotations, pfid2_filter_to_str)", "bec2format.hwcids"]
 STUBS = ["medium: SimFS (text layer, CRLF)", "BF2 generator + ground truth + RefBF2 (sim/bf2gen.py)", "filter-expression "
          "evaluator (this file)"]
-PROBES = ["whole-page-lost", "middle-page-lost", "page-crossing", "gap-before-last-line", "gap-at-first-line", "lost-last-line", "dup-line", "swap-lines",
+PROBES = ["unknown-tag-type", "whole-page-lost", "middle-page-lost", "page-crossing", "gap-before-last-line", "gap-at-first-line", "lost-last-line", "dup-line", "swap-lines",
           "ignored-section", "no-marker", "blob-gap-rejected", "bf2compat-faulted", "memimage-helper", "filter-expression",
           "three-types-sorted", "crlf"]
 ASSUMPTIONS = ["hardware-id names used in comparisons are transcribed into sim/bf2gen.py"]
@@ -41,7 +41,8 @@ def gen(st, tier):
     w = st["workload"]
     f = st["faults"]
     big = w.random() < (0.05 if tier == "quick" else 0.08)
-    spec = bf2gen.gen_spec(w, max_image=(70000 if w.random() < 0.5 else 200000) if big else w.choice([60, 300, 1500]))
+    spec = bf2gen.gen_spec(w, max_image=(70000 if w.random() < 0.5 else 200000) if big else w.choice([60, 300, 1500]),
+                           p_unknown=0.06)
     if big and w.random() < 0.5:
         # make sure one section really spans three or more 64 KiB pages
         for sec in spec["sections"]:
@@ -183,8 +184,11 @@ def run(case):
         surviving = None
         if spec.get("crlf"):
             out.probes["crlf"] += 1
-        if any(bf2gen.TAGTYPES[s["tt"]] is None for s in spec["sections"]):
+        if any(bf2gen.TAGTYPES.get(s["tt"], 0) is None for s in spec["sections"]):
             out.probes["ignored-section"] += 1
+        unknown = [s["tt"] for s in spec["sections"] if bf2gen.is_unknown(s["tt"])]
+        if unknown:
+            out.probes["unknown-tag-type"] += 1
         if any(s["image"]["len"] > 0x10000 for s in spec["sections"]):
             out.probes["page-crossing"] += 1
         if fault:
@@ -270,7 +274,9 @@ def run(case):
             out.probes["no-marker"] += 1
             expect_reject = "no BF3-update marker"
         exp = [dict(c) for c in truth]
-        if fault and fsi is not None and bf2gen.TAGTYPES[spec["sections"][fsi]["tt"]] is not None:
+        if unknown:
+            expect_reject = expect_reject or ("tag type 0x%02X cannot be represented" % unknown[0])
+        if fault and fsi is not None and bf2gen.TAGTYPES.get(spec["sections"][fsi]["tt"]) is not None and not unknown:
             out.nontrivial = True
             fmt = bf2gen.TAGTYPES[spec["sections"][fsi]["tt"]][2]
             tgt = [c for c in exp if c["si"] == fsi][0]
@@ -295,7 +301,8 @@ def run(case):
                 tgt["payload"] = b"".join(ln["raw"] for ln in surviving)
         if expect_reject:
             if err is None:
-                ident = "marker" if "marker" in expect_reject else fault[0]
+                ident = "marker" if "marker" in expect_reject else ("unknown-tag-type" if "tag type" in expect_reject
+                                                                     else fault[0])
                 out.fail("C13.converted-with-loss", ident,
                          "import succeeded although it must be rejected (%s); fault %s" % (expect_reject, case["fault"]))
             else:
